@@ -177,6 +177,13 @@ def const_str(mod: Module, e: ast.AST) -> T.Optional[str]:
 def inline_trivial_helpers(mod: Module, fn: ast.FunctionDef, cls: T.Optional[str]) -> ast.FunctionDef:
     """Source-to-source: calls of helpers of the same class / module whose body is a single `return <expr>` are replaced by that
     expression with the arguments substituted (bound by signature).  The copy keeps line numbers for reports."""
+    nested: T.Dict[str, ast.FunctionDef] = {}
+    for n_ in ast.walk(fn):
+        if isinstance(n_, ast.FunctionDef) and n_ is not fn:
+            b_ = [st for st in n_.body if not (isinstance(st, ast.Expr) and isinstance(st.value, ast.Constant))]
+            if len(b_) == 1 and isinstance(b_[0], ast.Return) and b_[0].value is not None:
+                nested[n_.name] = n_
+
     class Inl(ast.NodeTransformer):
         def __init__(self) -> None:
             self.depth = 0
@@ -186,19 +193,23 @@ def inline_trivial_helpers(mod: Module, fn: ast.FunctionDef, cls: T.Optional[str
             cn = attr_chain(c.func) or ''
             parts = cn.split('.')
             q = None
+            h: T.Any = None
             if len(parts) == 2 and parts[0] in ('self', 'cls', cls or '') and cls and mod.has_func(f'{cls}.{parts[1]}'):
                 q = f'{cls}.{parts[1]}'
+            elif len(parts) == 1 and parts[0] in nested:
+                q, h = parts[0], nested[parts[0]]          # a closure defined inside the function itself
             elif len(parts) == 1 and mod.has_func(parts[0]) and '.' not in parts[0]:
                 q = parts[0]
             if q is None or self.depth > 2:
                 return c
-            h = mod.func(q)
+            if h is None:
+                h = mod.func(q)
             body = [st for st in h.body if not (isinstance(st, ast.Expr) and isinstance(st.value, ast.Constant))]
             if h is fn or len(body) != 1 or not isinstance(body[0], ast.Return) or body[0].value is None or not isinstance(h, ast.FunctionDef):
                 return c
             if any(isinstance(n, (ast.Lambda,)) and any(a.arg in [x.arg for x in h.args.args] for a in n.args.args) for n in ast.walk(body[0].value)):
                 return c
-            b = bind_args(c, h, '.' in q)
+            b = bind_args(c, h, '.' in q and q not in nested)
             hp = [a.arg for a in h.args.args if a.arg not in ('self', 'cls')]
             if set(hp) - set(b):
                 return c       # defaults in play: keep the call
@@ -719,7 +730,7 @@ def r3(ctx: RuleCtx) -> None:
     if not cands:
         for q, f in mod.funcs().items():
             if q.split('.')[-1] in called and q.count('.') <= 1 and q != 'Rewriter.apply_changes' and isinstance(f, ast.FunctionDef):
-                f2 = field_normal_form(f)
+                f2 = field_normal_form(inline_trivial_helpers(mod, f, q.split('.')[0] if '.' in q else None))
                 if splices(f2):
                     cands.append((q, f2, '.' in q))
     if len(cands) != 1:
@@ -922,14 +933,26 @@ def r3(ctx: RuleCtx) -> None:
 
     # ---- (c) the line table
     F_tab = table_e.rsplit('.', 1)[1]
-    recs = [r_ for r_ in (record_fields(mod, d) for d in ast.walk(fn) if isinstance(d, (ast.Dict, ast.Call))) if r_ is not None and F_tab in r_ and F_text in r_]
+    def records_in(scope: ast.AST) -> T.List[T.Dict[str, ast.AST]]:
+        return [r_ for r_ in (record_fields(mod, d) for d in ast.walk(scope) if isinstance(d, (ast.Dict, ast.Call))) if r_ is not None and F_tab in r_ and F_text in r_]
+    rec_scope: ast.AST = fn
+    rec_q = 'Rewriter.apply_changes'
+    recs = records_in(fn)
+    if not recs:
+        # the record may be built by a helper that apply_changes calls (file loading extracted): look one level down
+        for q_, f_ in mod.funcs().items():
+            if q_.split('.')[-1] in called and q_ != 'Rewriter.apply_changes' and isinstance(f_, ast.FunctionDef) and q_.count('.') <= 1:
+                f2_ = field_normal_form(f_)
+                r2_ = records_in(f2_)
+                if r2_:
+                    recs, rec_scope, rec_q = recs + r2_, f2_, q_
     if len(recs) != 1:
         raise Undecided(f'apply_changes: {len(recs)} constructions of the per-file record with the fields {F_text!r} and {F_tab!r}')
     rec = recs[0]
     if not (isinstance(rec[F_tab], ast.Name) and isinstance(rec[F_text], ast.Name)):
         raise Undecided(f'apply_changes: the fields {F_tab!r}/{F_text!r} of the file record are not plain locals')
     tname, rname = rec[F_tab].id, rec[F_text].id  # type: ignore[attr-defined]
-    tdefs = [n.value for n in ast.walk(fn) if isinstance(n, ast.Assign) and len(n.targets) == 1 and norm(n.targets[0]) == tname]
+    tdefs = [n.value for n in ast.walk(rec_scope) if isinstance(n, ast.Assign) and len(n.targets) == 1 and norm(n.targets[0]) == tname]
     helper = None
     if len(tdefs) == 1 and isinstance(tdefs[0], ast.Call) and len(tdefs[0].args) == 1 and not tdefs[0].keywords and norm(tdefs[0].args[0]) == rname:
         # the table is computed by a helper of the class / module from the same text: analyse the helper (one level)
@@ -945,7 +968,7 @@ def r3(ctx: RuleCtx) -> None:
         else:
             raise Undecided(f'apply_changes: the line table comes from {short(tdefs[0])}, which is not a helper of this module')
     else:
-        _line_table(ctx, mod, fn, tname, rname, 'Rewriter.apply_changes', term)
+        _line_table(ctx, mod, rec_scope, tname, rname, rec_q, term)
 
     # ---- end positions of the spliced classes are exclusive ends of the closing symbol
     pm = ctx.repo.module(MPARSER)
